@@ -86,6 +86,24 @@ fn leaf_trees() -> Vec<(String, tir::Tx)> {
         .map(|i| tirb::utxo(UtxoRef { txid: vec![0xAA; 32], index: i }, &base_address(1, 0), CanonicalAssets::from_naked_amount(1 + i as i128)))
         .collect();
     out.push(("utxo set of 3 outputs of one transaction".into(), tirgen::place(2, tir::Expression::UtxoSet(same_tx))));
+    // UTxOs whose values are unusual as values go (what a client's IR may hold is data, not what constructors would
+    // have built): only negative amounts, a zero entry, classes with an empty policy / an empty name written as such
+    {
+        use tx3_tir::model::assets::AssetClass;
+        let odd: Vec<(&str, CanonicalAssets)> = vec![
+            ("only negative amounts", CanonicalAssets::from_defined_asset(&[3; 28], b"abc", -5)),
+            ("negative lovelace", CanonicalAssets::from_naked_amount(-7)),
+            ("a zero entry", CanonicalAssets::from_defined_asset(&[3; 28], b"abc", 0)),
+            ("class with an empty policy", CanonicalAssets::from_class_and_amount(AssetClass::Defined(vec![], b"abc".to_vec()), 5)),
+            ("class with an empty name", CanonicalAssets::from_class_and_amount(AssetClass::Defined(vec![3; 28], vec![]), 5)),
+            ("named class with an empty name", CanonicalAssets::from_class_and_amount(AssetClass::Named(vec![]), 5)),
+            ("named class beside lovelace", CanonicalAssets::from_class_and_amount(AssetClass::Named(vec![]), 5) + CanonicalAssets::from_naked_amount(2)),
+        ];
+        for (label, assets) in odd {
+            let u = tirb::utxo(UtxoRef { txid: vec![0xBB; 32], index: 9 }, &base_address(1, 0), assets);
+            out.push((format!("utxo set: {label}"), tirgen::place(2, tir::Expression::UtxoSet([u].into_iter().collect()))));
+        }
+    }
     let mut empty = tirb::empty_tx();
     empty.validity = None;
     out.push(("empty tx".into(), empty));
